@@ -68,7 +68,7 @@ def check(ctx):
     EV_OUT = [("inactive", "self._active = False"), ("rm_own", ["self._tasks.remove(self._host_task)", "self._tasks.discard(self._host_task)"]),
               ("rm_child", ["self._parent_scope._child_scopes.remove(self)", "self._parent_scope._child_scopes.discard(self)"]),
               ("add_parent", "self._parent_scope._tasks.add(self._host_task)"), ("ptr", "$S.cancel_scope = self._parent_scope"),
-              ("restart", "self._restart_cancellation_in_parent()"), ("thcancel", "self._timeout_handle.cancel()"),
+              ("restart", "self._parent_scope._restart_cancellation()"), ("thcancel", "self._timeout_handle.cancel()"),
               ("thnone", "self._timeout_handle = None"), ("hostnone", "self._host_task = None")]
     has_timer = F("self._timeout_handle")
 
@@ -78,7 +78,9 @@ def check(ctx):
             if st - {"hostnone"}:
                 return f"a misuse error is raised after the scope tree was already edited ({sorted(st)})"
             return None
-        need = {"inactive", "rm_own", "ptr", "restart", "hostnone"}
+        need = {"inactive", "rm_own", "ptr", "hostnone"}
+        if no_parent not in facts:
+            need |= {"restart"}       # (a root scope has no enclosing scope whose delivery could need a restart)
         if (no_parent[0], False) in facts:
             need |= {"rm_child", "add_parent"}
         elif no_parent not in facts:
@@ -140,14 +142,28 @@ def check(ctx):
                   lambda k, s, f: None, instance="increment immediately follows the cancel() it counts")
     unc = ctx.sites(exit_, "self._host_task.uncancel()")
     dec = ctx.sites(exit_, "self._pending_uncancellations -= 1")
-    if ctx.need("R05-b", exit_, "drain loop `while pending: uncancel(); pending -= 1`", min(len(unc), len(dec)), 1):
+    bulk = []       # `for _ in range(self._pending_uncancellations): uncancel()` - the other spelling of the 1:1 drain
+    if ctx.need("R05-b", exit_, "drain loop: one `self._host_task.uncancel()` per unit of the counter", len(unc), 1):
         loop = unc[0][0]
-        while loop is not None and not isinstance(loop, ast.While):
+        while loop is not None and not isinstance(loop, (ast.While, ast.For)):
             loop = getattr(loop, "_parent", None)
-        ok = loop is not None and F(ast.unparse(loop.test)) == F("self._pending_uncancellations") and len(loop.body) == 2 \
-            and any(x is dec[0][0] for x in loop.body) and len(unc) == 1 and len(dec) == 1
+        if isinstance(loop, ast.While):
+            ok = F(ast.unparse(loop.test)) == F("self._pending_uncancellations") and len(dec) == 1 and any(x is stmt_of(dec[0][0]) for x in loop.body) and len(unc) == 1 \
+                and sum(1 for x in ast.walk(loop) if isinstance(x, ast.Call) and ast.unparse(x.func).endswith(".uncancel")) == 1
+            how = "while counter: uncancel(); counter -= 1"
+        elif isinstance(loop, ast.For):
+            writes = [x for x in ast.walk(loop) if isinstance(x, ast.Attribute) and x.attr == "_pending_uncancellations" and isinstance(x.ctx, (ast.Store, ast.Del))]
+            ok = ast.unparse(loop.iter) == "range(self._pending_uncancellations)" and not writes and not loop.orelse and len(unc) == 1 \
+                and sum(1 for x in ast.walk(loop) if isinstance(x, ast.Call) and ast.unparse(x.func).endswith(".uncancel")) == 1 \
+                and not any(isinstance(x, (ast.Break, ast.Continue, ast.Return)) for x in ast.walk(loop))
+            how = "for _ in range(counter): uncancel(); then counter = 0"
+            if ok:
+                bulk.append(loop)
+        else:
+            ok, how = False, "no loop"
         ctx.ob("R05-b", exit_, "exactly one uncancel() per counted cancel()", ok,
-               detail="" if ok else "the drain loop is not `while self._pending_uncancellations: uncancel(); counter -= 1`", node=unc[0][0], by=("1:1 loop",))
+               detail="" if ok else "the drain is neither `while self._pending_uncancellations: uncancel(); counter -= 1` nor `for _ in range(counter): uncancel()` + `counter = 0`",
+               node=unc[0][0], by=(how,))
         ctx.require_at("R05-b", exit_, unc[0][0], [["self._cancel_called", "not self._parent_cancellation_is_visible_to_us"]],
                        instance="uncancel only when this scope absorbs (no outer cancellation visible)")
     zero = F("self._pending_uncancellations")
@@ -162,7 +178,7 @@ def check(ctx):
     def step_t(st, e, c):
         if c.is_exc:
             return st
-        if e == "transfer":
+        if e in ("transfer", "drained"):
             return True
         if e == "zero" and not st and SAMEHOST_F not in c.facts_before and SAMEHOST_F not in c.facts:
             return Bad("the uncancel counter is zeroed without having been transferred to a parent scope of the same task: the host task keeps a cancellation request count it can never shed")
@@ -176,7 +192,9 @@ def check(ctx):
         return None
 
     ctx.paths("R05-b", exit_, [("transfer", "self._parent_scope._pending_uncancellations += self._pending_uncancellations"),
-                               ("zero", "self._pending_uncancellations = 0")], step_t, False, at_exit_t, instance="counter drained or transferred")
+                               ("zero", "self._pending_uncancellations = 0"),
+                               ("drained", [lambda frag, node, ids={id(b) for b in bulk}: node.kind == "for_iter" and id(node.node) in ids])],
+              step_t, False, at_exit_t, instance="counter drained or transferred")
 
     # ---- R05-c timer cleanup ----------------------------------------------------------------------------------------------
     for f in (exit_, cancel):
